@@ -82,12 +82,24 @@ Con canon(Con c) {
   for (size_t i = 0; i < c.a.size(); ++i) c.a[i] /= f; c.b /= f; return c;
 }
 bool same_con(const Con& x, const Con& y) { Con a = canon(x), b = canon(y); return a.rel == b.rel && a.a == b.a && a.b == b.b; }
-// "" if equal, else the name of the first differing field
-std::string diff_snap(const Snap& a, const Snap& b, bool with_pricing) {
+// a row  +-x_i <= integer  on an integer variable (what PPL's branch&bound adds)
+bool integer_bound_row(const Con& c, const std::set<int>& ints) {
+  if (c.rel != ref::LE) return false; int var = -1;
+  for (size_t i = 0; i < c.a.size(); ++i) if (c.a[i] != 0) { if (var >= 0) return false; var = (int) i; }
+  if (var < 0 || !ints.count(var)) return false; Q r = c.b / abs(c.a[var]); return r.get_den() == 1;
+}
+// "" if equal, else the name of the first differing field.  a = what the solver says, b = what the client gave.
+// extras (optional): set to true when a's constraints are b's plus extra integer-bound rows (and nothing else differs there).
+std::string diff_snap(const Snap& a, const Snap& b, bool with_pricing, bool* extras = 0) {
   if (a.n != b.n) return "space_dimension";
   Sys x, y; for (size_t i = 0; i < a.S.size(); ++i) if (!tautology(a.S[i])) x.push_back(a.S[i]); for (size_t i = 0; i < b.S.size(); ++i) if (!tautology(b.S[i])) y.push_back(b.S[i]);
-  if (x.size() != y.size()) return "constraints";
-  for (size_t i = 0; i < x.size(); ++i) if (!same_con(x[i], y[i])) return "constraints";
+  bool same = x.size() == y.size(); for (size_t i = 0; same && i < x.size(); ++i) if (!same_con(x[i], y[i])) same = false;
+  if (!same) {
+    bool sub = extras != 0 && a.ints == b.ints; size_t j = 0;
+    for (size_t i = 0; sub && i < x.size(); ++i) { if (j < y.size() && same_con(x[i], y[j])) ++j; else if (!integer_bound_row(x[i], a.ints)) sub = false; }
+    if (!sub || j != y.size()) return "constraints";
+    *extras = true;
+  }
   if (a.oa != b.oa || a.ob != b.ob) return "objective_function";
   if (a.maxim != b.maxim) return "optimization_mode";
   if (a.ints != b.ints) return "integer_space_dimensions";
@@ -475,7 +487,13 @@ Linear_Expression rand_obj(int n) {
 }
 
 // ---------- one pool slot ----------
-struct Slot { MipP m; Prob D; MipP twin; int twin_age; Slot() : twin_age(0) {} };
+struct Slot {
+  MipP m; Prob D; MipP twin; int twin_age;
+  bool extra_rows;   // defect already reported for this object: is_satisfiable() left branching constraints in the problem (answers are still compared against the client's data)
+  bool skip_ok;      // defect already reported for this object: OK() rejects the state left by add_to_integer_space_dimensions (until the next resolution)
+  Slot() : twin_age(0), extra_rows(false), skip_ok(false) {}
+  void take_flags(const Slot& y) { extra_rows = y.extra_rows; skip_ok = y.skip_ok; }
+};
 
 // a mutator, applied identically to the monitored object, its lock-step twin and the log
 struct Mut {
@@ -508,26 +526,45 @@ struct Mut {
 
 struct Stop {};   // the case ends (violation reported)
 
-void check_ok(const MIP_Problem& m, const std::string& after) { checked(); if (!m.OK()) { violation("C06.ok." + after, "OK() is false after " + after + "; state " + state_word(m)); throw Stop(); } }
+void check_ok(Slot& s, const std::string& after) {
+  if (s.skip_ok) return;
+  checked(); bool ok = false; std::string threw;
+  try { ok = s.m->OK(); } catch (const std::exception& e) { threw = e.what(); }
+  if (ok) return;
+  std::string cls = !threw.empty() ? ":throws" : after == "add_to_integer_space_dimensions" ? ":cached-point-not-integral" : "";
+  violation("C06.ok." + after + cls, (threw.empty() ? "OK() is false after " : "OK() throws (" + threw + ") after ") + after + "; state " + state_word(*s.m) + "; " + show(s.D));
+  if (after != "add_to_integer_space_dimensions") throw Stop();
+  s.skip_ok = true;   // the state itself is legitimate: go on, without consulting OK() until the problem is resolved
+}
+// "" or the differing field; tolerant of (already reported) extra branching rows
+std::string value_diff(Slot& s, const MIP_Problem& m, bool with_pricing, const std::string& what, bool* dim_bad = 0) {
+  bool extras = false; Snap a = snap_of(m, dim_bad), l = snap_of(s.D);
+  std::string f = diff_snap(a, l, with_pricing, &extras);
+  if (f.empty() && extras && !s.extra_rows) {
+    s.extra_rows = true;
+    violation("C06.accessor.constraints:extra-integer-bounds", what + ": the problem now contains bounds on integer variables that the client never added: accessors say " + show(a) + " but the client gave " + show(l));
+  }
+  return f;
+}
 // accessors describe the logged data
-void check_accessors(const Slot& s, const std::string& keyprefix, const std::string& what) {
-  checked(); bool bad = false; Snap a = snap_of(*s.m, &bad), l = snap_of(s.D);
+void check_accessors(Slot& s, const std::string& keyprefix, const std::string& what) {
+  checked(); bool bad = false; std::string f = value_diff(s, *s.m, true, what, &bad);
   if (bad) { violation(keyprefix + "dimension", what + ": a constraint or the objective exceeds the space dimension"); throw Stop(); }
-  std::string f = diff_snap(a, l, true);
-  if (!f.empty()) { violation(keyprefix + f, what + ": accessors say " + show(a) + " but the client gave " + show(l)); throw Stop(); }
+  if (!f.empty()) { violation(keyprefix + f, what + ": accessors say " + show(snap_of(*s.m)) + " but the client gave " + show(snap_of(s.D))); throw Stop(); }
 }
 
 void run_mutator(Slot& s, const Mut& mu, const std::string& pre) {
   tr(pre + "." + mu.text + "; "); hx::count("op." + mu.name);
   hx::distinct("mut|" + mu.name + "|" + state_word(*s.m) + "|" + (s.D.ints.empty() ? "lp" : "mip") + (s.D.cs.empty() ? "|nocons" : ""));
   mu.apply(*s.m); mu.apply(s.D);
-  check_ok(*s.m, mu.name);
+  if (mu.k == 7) { s.skip_ok = false; s.extra_rows = false; }
+  check_ok(s, mu.name);
   if (mu.k == 7) s.D.pricing = pv_code(s.m->get_control_parameter(MIP_Problem::PRICING));   // documentation silent on control parameters after clear()
   if (s.twin) {
     hx::count("lockstep.mutators"); mu.apply(*s.twin); checked();
-    std::string f = diff_snap(snap_of(*s.twin), snap_of(s.D), mu.k != 7);
+    std::string f = value_diff(s, *s.twin, mu.k != 7, "loaded twin after " + mu.name);
     if (!f.empty()) { violation("C15.mip.lockstep_value_differs." + mu.name, "after " + mu.text + " the loaded twin differs in " + f); throw Stop(); }
-    if (!s.twin->OK()) { violation("C15.mip.lockstep_not_OK." + mu.name, "loaded twin not OK after " + mu.text); throw Stop(); }
+    if (!s.skip_ok && !s.twin->OK()) { violation("C15.mip.lockstep_not_OK." + mu.name, "loaded twin not OK after " + mu.text); throw Stop(); }
   }
 }
 
@@ -549,7 +586,7 @@ Mut rand_mutator(const Slot& s, int intmode, std::vector<Mut>& prelude) {
       mu.k = 2; mu.name = "add_space_dimensions_and_embed"; mu.m = coin(15) ? 0 : rnd(1, std::min(2, g_maxdim - D.n)); mu.text = "add_space_dimensions_and_embed(" + std::to_string(mu.m) + ")"; return mu;
     }
     if (k < 68) {
-      if (intmode == 0 || D.n == 0) continue;
+      if (intmode == 0 || D.n == 0) { if (coin(60)) continue; mu.k = 0; mu.name = "add_constraint"; mu.cons.assign(1, rand_row(D)); mu.text = "add_constraint(" + str(mu.cons[0]) + ")"; return mu; }
       mu.k = 3; mu.name = "add_to_integer_space_dimensions"; std::ostringstream o; o << "add_to_integer_space_dimensions({";
       for (int i = 0; i < D.n; ++i) if (coin(45)) { mu.vs.insert(i); o << str(Variable(i)) << " "; } o << "})"; mu.text = o.str();
       if (intmode == 1) {   // most integer variables are explicitly boxed so that the enumeration oracle is complete
@@ -577,14 +614,15 @@ void run_query_step(Slot& s, int q, const std::string& pre) {
     else { Linear_Expression e; int d = rnd(0, n); for (int i = 0; i < d; ++i) e += rnd(-4, 4) * Variable(i); evalpt = point(e, rnd(1, 3)); }
   }
   std::string stw = state_word(*s.m);
-  tr(pre + "." + QN[q] + (q == Q_EVAL ? "(" + str(evalpt) + ")" : "()") + " [" + stw + "]; "); hx::count(std::string("q.") + QN[q]);
-  Oracle O = make_oracle(s.D); if (hx::st().case_tainted) throw Stop();
+  tr(pre + "." + QN[q] + (q == Q_EVAL ? "(" + str(evalpt) + ")" : "()") + " [" + stw + "]; "); hx::count(std::string("q.") + QN[q]); hx::count("state.query." + stw);
+  Oracle O = make_oracle(s.D); if (!O.usable) throw Stop();
   const std::string cls = O.kind() + "|" + (O.R.st < 0 ? "unknown" : STN[O.R.st]);
   if (s.D.n > 0 && !s.D.cs.empty()) hx::distinct(std::string("query|") + QN[q] + "|" + stw + "|" + cls + "|" + PVN[s.D.pricing]);
   g_site = "copy"; MIP_Problem c(*s.m);                       // pre-query copy: must answer like the original
   Ans a0 = run_query(*s.m, q, &evalpt);
   tr("-> " + a0.text(q) + "; ");
-  check_ok(*s.m, QN[q]);
+  if (q != Q_EVAL) s.skip_ok = false;   // the problem has been resolved: OK() must hold again
+  check_ok(s, QN[q]);
   check_accessors(s, "C06.accessor.", std::string("after ") + QN[q]);
   if (!check_answer(a0, q, s.D, O, "incremental problem", &evalpt)) throw Stop();
   if (q == Q_EVAL) { Ans a1 = run_query(c, q, &evalpt); checked(); if (!same_answer(a0, a1)) { violation("C13.mip.copy_answer_differs.evaluate_objective_function", "copy: " + a1.text(q) + " original: " + a0.text(q)); throw Stop(); } }
@@ -618,19 +656,19 @@ void run_query_step(Slot& s, int q, const std::string& pre) {
     if (!same_answer(a0, a2)) { violation(std::string("C15.mip.lockstep_diverged.") + QN[q], "loaded twin: " + a2.text(q) + " original: " + a0.text(q) + "; " + show(s.D)); throw Stop(); }
     if (a0.has_pt && str(a0.g) != str(a2.g)) hx::count("lockstep.point_differs");
     if (dump(*s.twin) != dump(*s.m)) hx::count("lockstep.text_differs");
-    if (!s.twin->OK()) { violation(std::string("C15.mip.lockstep_not_OK.") + QN[q], "loaded twin not OK"); throw Stop(); }
+    if (!s.skip_ok && !s.twin->OK()) { violation(std::string("C15.mip.lockstep_not_OK.") + QN[q], "loaded twin not OK"); throw Stop(); }
   }
 }
 
 // ---------- C15: ascii round trip ----------
 void ascii_step(Slot& s, const std::string& pre) {
   std::string stw = state_word(*s.m);
-  tr(pre + ".ascii_dump/load [" + stw + "]; "); hx::count("op.ascii_roundtrip"); hx::distinct("ascii|" + stw + "|" + (s.D.ints.empty() ? "lp" : "mip") + "|" + std::to_string(s.D.n));
+  tr(pre + ".ascii_dump/load [" + stw + "]; "); hx::count("op.ascii_roundtrip"); hx::count("state.ascii." + stw); hx::distinct("ascii|" + stw + "|" + (s.D.ints.empty() ? "lp" : "mip") + "|" + std::to_string(s.D.n));
   g_site = "ascii"; std::string d1 = dump(*s.m); std::istringstream in(d1); MipP L(new MIP_Problem()); checked(4);
   if (!L->ascii_load(in)) { violation("C15.mip.load_failed", "state " + stw + "; " + show(s.D)); throw Stop(); }
-  if (!L->OK()) { violation("C15.mip.loaded_not_OK", "state " + stw + "; " + show(s.D)); throw Stop(); }
+  if (!s.skip_ok && !L->OK()) { violation("C15.mip.loaded_not_OK", "state " + stw + "; " + show(s.D)); throw Stop(); }
   std::string d2 = dump(*L); if (d1 != d2) { violation("C15.mip.redump_differs", "state " + stw + "; " + show(s.D)); throw Stop(); }
-  std::string f = diff_snap(snap_of(*L), snap_of(s.D), true); if (!f.empty()) { violation("C15.mip.value_differs", "field " + f + "; state " + stw + "; " + show(s.D)); throw Stop(); }
+  std::string f = value_diff(s, *L, true, "loaded object"); if (!f.empty()) { violation("C15.mip.value_differs", "field " + f + "; state " + stw + "; " + show(s.D)); throw Stop(); }
   if (dump(*s.m) != d1) { violation("C15.mip.dump_not_pure", "ascii_dump changed the object"); throw Stop(); }
   s.twin = std::move(L); s.twin_age = 0;
 }
@@ -642,12 +680,12 @@ void value_step(Slot* pool, int ai, int bi, const std::string& pre) {
   static const char* const nm[5] = { "copy_construct", "assign", "m_swap", "swap", "copy_then_destroy_source" };
   hx::count(std::string("op.") + nm[how]); hx::distinct(std::string("value|") + nm[how] + "|" + sa + "|" + sb + (ai == bi ? "|self" : ""));
   g_site = nm[how];
-  if (how == 0) { tr(pre + " = copy(#" + std::to_string(bi) + ") [" + sb + "]; "); if (ai != bi) { A.m.reset(new MIP_Problem(*B.m)); A.D = B.D; A.twin.reset(); } }
-  else if (how == 1) { tr(pre + " = #" + std::to_string(bi) + " [" + sb + "]; "); *A.m = *B.m; if (ai != bi) { A.D = B.D; A.twin.reset(); } }
-  else if (how == 2) { tr(pre + ".m_swap(#" + std::to_string(bi) + "); "); A.m->m_swap(*B.m); if (ai != bi) { std::swap(A.D, B.D); std::swap(A.twin, B.twin); } }
-  else if (how == 3) { tr(pre + " swap #" + std::to_string(bi) + "; "); using std::swap; swap(*A.m, *B.m); if (ai != bi) { std::swap(A.D, B.D); std::swap(A.twin, B.twin); } }
-  else { tr(pre + " = copy of a temporary copy of #" + std::to_string(bi) + ", temporary destroyed; "); MipP t(new MIP_Problem(*B.m)); MipP u(new MIP_Problem(*t)); t.reset(); A.m = std::move(u); if (ai != bi) { A.D = B.D; A.twin.reset(); } }
-  for (int i = 0; i < 2; ++i) { check_ok(*pool[i].m, nm[how]); check_accessors(pool[i], std::string("C13.mip.") + nm[how] + (ai == bi ? "_self" : "") + "_differs.", std::string("after ") + nm[how]); }
+  if (how == 0) { tr(pre + " = copy(#" + std::to_string(bi) + ") [" + sb + "]; "); if (ai != bi) { A.m.reset(new MIP_Problem(*B.m)); A.D = B.D; A.take_flags(B); A.twin.reset(); } }
+  else if (how == 1) { tr(pre + " = #" + std::to_string(bi) + " [" + sb + "]; "); *A.m = *B.m; if (ai != bi) { A.D = B.D; A.take_flags(B); A.twin.reset(); } }
+  else if (how == 2) { tr(pre + ".m_swap(#" + std::to_string(bi) + "); "); A.m->m_swap(*B.m); if (ai != bi) { std::swap(A.D, B.D); std::swap(A.twin, B.twin); std::swap(A.extra_rows, B.extra_rows); std::swap(A.skip_ok, B.skip_ok); } }
+  else if (how == 3) { tr(pre + " swap #" + std::to_string(bi) + "; "); using std::swap; swap(*A.m, *B.m); if (ai != bi) { std::swap(A.D, B.D); std::swap(A.twin, B.twin); std::swap(A.extra_rows, B.extra_rows); std::swap(A.skip_ok, B.skip_ok); } }
+  else { tr(pre + " = copy of a temporary copy of #" + std::to_string(bi) + ", temporary destroyed; "); MipP t(new MIP_Problem(*B.m)); MipP u(new MIP_Problem(*t)); t.reset(); A.m = std::move(u); if (ai != bi) { A.D = B.D; A.take_flags(B); A.twin.reset(); } }
+  for (int i = 0; i < 2; ++i) { check_ok(pool[i], nm[how]); check_accessors(pool[i], std::string("C13.mip.") + nm[how] + (ai == bi ? "_self" : "") + "_differs.", std::string("after ") + nm[how]); }
   // same lazy state after copy / assignment (answers are compared at the next query through the pre-query copy)
   if ((how == 0 || how == 1 || how == 4) && ai != bi) { checked(); if (dump(*A.m) != dump(*B.m)) hx::count("value.copy_text_differs"); }
 }
@@ -676,13 +714,13 @@ void run_case(uint64_t) {
   g_bb_cap = (unsigned) hx::opt().geti("bbcap", 300);
   g_enum_cap = hx::opt().geti("enumcap", 4096);
   // 0: pure LP, 1: integer variables boxed when declared, 2: integer variables left as they are
-  int im = rnd(0, 99); int intmode = im < 35 ? 0 : im < 85 ? 1 : 2;
+  int im = rnd(0, 99); int intmode = im < 30 ? 0 : im < 86 ? 1 : 2;
   int pct_unb = (int) hx::opt().geti("unboxed", -1); if (pct_unb >= 0 && intmode != 0) intmode = coin(pct_unb) ? 2 : 1;
   Slot pool[2]; int receiver = 0;
   try {
     // constructors
     for (int i = 0; i < 2; ++i) {
-      Slot& s = pool[i]; Prob& D = s.D; D.n = coin(4) ? 0 : rnd(1, g_maxdim); int how = rnd(0, 3); std::ostringstream o; o << "#" << i << " = ";
+      Slot& s = pool[i]; Prob& D = s.D; D.n = coin(4) ? 0 : rnd(1, g_maxdim); int how = rnd(0, 3); if (intmode != 0 && coin(40)) how = 2; std::ostringstream o; o << "#" << i << " = ";
       if (i == 1 || how == 0) { o << "MIP_Problem(" << D.n << "); "; tr(o.str()); s.m.reset(new MIP_Problem(D.n)); }
       else {
         int c = rnd(0, 4); for (int j = 0; j < c; ++j) D.cs.push_back(rand_row(D)); D.obj = rand_obj(D.n); D.mode = coin() ? MAXIMIZATION : MINIMIZATION;
@@ -690,13 +728,13 @@ void run_case(uint64_t) {
           Constraint_System cs; for (size_t j = 0; j < D.cs.size(); ++j) cs.insert(D.cs[j]); o << "MIP_Problem(" << D.n << ", cs, obj, mode) with " << show(D) << "; "; tr(o.str());
           s.m.reset(new MIP_Problem(D.n, cs, D.obj, D.mode));
         } else {
-          if (how == 2 && intmode != 0) for (int j = 0; j < D.n; ++j) if (coin(40)) { D.ints.insert(j); if (intmode == 1) { D.cs.push_back(Variable(j) >= -rnd(0, 4)); D.cs.push_back(Variable(j) <= rnd(0, 4)); } }
+          if (how == 2 && intmode != 0) for (int j = 0; j < D.n; ++j) if (coin(55)) { D.ints.insert(j); if (intmode == 1) { D.cs.push_back(Variable(j) >= -rnd(0, 4)); D.cs.push_back(Variable(j) <= rnd(0, 4)); } }
           o << "MIP_Problem(" << D.n << ", first, last, " << (how == 2 ? "int_vars, " : "") << "obj, mode) with " << show(D) << "; "; tr(o.str());
           if (how == 2) s.m.reset(new MIP_Problem(D.n, D.cs.begin(), D.cs.end(), vset(D.ints), D.obj, D.mode));
           else s.m.reset(new MIP_Problem(D.n, D.cs.begin(), D.cs.end(), D.obj, D.mode));
         }
       }
-      hx::count("op.construct"); check_ok(*s.m, "construct"); check_accessors(s, "C06.accessor.", "after construction");
+      hx::count("op.construct"); check_ok(s, "construct"); check_accessors(s, "C06.accessor.", "after construction");
     }
     int steps = rnd(4, 11);
     int w_mut = 52, w_query = 32, w_value = 7, w_ascii = 6, w_rej = 3;
@@ -728,10 +766,11 @@ void run_case(uint64_t) {
   catch (const Logical_Timeout&) {
     std::string cls = "unknown"; const Prob& D = pool[receiver].D;
     try { cls = hang_class(D); } catch (...) {}
-    hx::count("hang"); violation("C06.hang." + g_site + ":" + cls, "logical-time budget of " + std::to_string(g_budget) + " weight units exceeded in " + g_site + "; " + show(D));
+    std::string root = (g_site == "optimizing_point" || g_site == "optimal_value") ? "solve" : g_site == "feasible_point" ? "is_satisfiable" : g_site;   // the looping routine
+    hx::count("hang"); violation("C06.hang." + root + ":" + cls, "logical-time budget of " + std::to_string(g_budget) + " weight units exceeded in " + g_site + "; " + show(D));
   }
   catch (const std::exception& e) {
-    if (!hx::st().case_tainted) violation("C06.exception." + g_site, std::string(typeid(e).name()) + ": " + e.what() + "; " + show(pool[receiver].D));
+    violation("C06.exception." + g_site, std::string(typeid(e).name()) + ": " + e.what() + "; " + show(pool[receiver].D));
   }
 }
 
